@@ -389,7 +389,44 @@ def gen_sentence_raw(rnd, exact_only=False, allow_default_kf=False):
     text = " ".join(p[1] for p in shuffled)
     twin = "V::timeline()" + "".join(p[2] for p in shuffled)
     feats = sorted(set(feats)) + [f"kf={len(kfs)}", "interleaved" if timing_after_kf else "ordered"]
-    return {"text": text, "twin": twin, "exact": exact, "feats": feats}
+    return {"text": text, "twin": twin, "exact": exact, "feats": feats, "parts": shuffled}
+
+
+RESPELL = {"2s": ["2.0s", "2000ms", "for 2s"], "1s": ["1.0s", "1000ms", "1e0s"], "5s": ["5.0s", "5_000ms"], "12s": ["12.0s", "12_000ms"],
+           "0.25s": ["250ms"], "250ms": ["0.25s"], "1.5s": ["1_500ms", "1500ms"], "1_500ms": ["1.5s"], "500ms": ["0.5s"], "0.5s": ["500ms"],
+           "2000ms": ["2s"], "4_000ms": ["4s", "4000ms"], "1e3ms": ["1s", "1000ms"], "125ms": ["0.125s"], "1000ms": ["1s"], "1.0s": ["1s"],
+           "3.0s": ["3s", "3000ms"], "2.5s": ["2500ms"], "60s": ["60.0s", "60_000ms"], "1000s": ["1_000s"], "0s": ["0ms", "0.0s"], "0ms": ["0s"]}
+
+
+def respell_options(rnd, prev, own):
+    """A sentence with the options (duration, delay, repeat, reverse, easing) of `prev` — durations respelled with the
+    same value where a spelling is known, in shuffled order — and the keyframes of `own`."""
+    opts = [p for p in prev["parts"] if p[0] != "kf"]
+    kfs = [p for p in own["parts"] if p[0] == "kf"]
+    new_opts = []
+    for kind, m, b in opts:
+        if kind in ("dur", "delay"):
+            pre = "after " if kind == "delay" else ("for " if m.startswith("for ") else "")
+            lit = m[len(pre):] if m.startswith(pre) else m
+            alts = [a for a in RESPELL.get(lit, []) if not (a.startswith("for ") and kind == "delay")]
+            if alts and rnd.random() < 0.7:
+                a = rnd.choice(alts)
+
+                def macro_value(text):
+                    text = text[4:] if text.startswith("for ") else text
+                    unit = "ms" if text.endswith("ms") else "s"
+                    return lit_values(float(text[:-len(unit)].replace("_", "")), unit)[0]
+                # only spellings for which the macro's own arithmetic yields the very same f32
+                if macro_value(a) == macro_value(lit):
+                    m = (pre if not a.startswith("for ") else "") + a
+        new_opts.append((kind, m, b))
+    parts = new_opts + kfs
+    rnd.shuffle(parts)
+    text = " ".join(p[1] for p in parts)
+    twin = "V::timeline()" + "".join(p[2] for p in parts)
+    feats = sorted(set([f for f in prev["feats"] if not (f.startswith("kf=") or "pct" in f or f in ("from", "to", "interleaved", "ordered") or "same-position" in f or "default" in f)]
+                       + [f for f in own["feats"] if (f.startswith("kf=") or "pct" in f or f in ("from", "to") or "same-position" in f or "default" in f)] + ["same-options-as-previous-member"]))
+    return {"text": text, "twin": twin, "exact": prev["exact"] and own["exact"], "feats": feats, "parts": parts}
 
 
 def gen_timeline_invocation(rnd, exact_only=False, allow_default_kf=False, allow_merge=True):
@@ -400,6 +437,11 @@ def gen_timeline_invocation(rnd, exact_only=False, allow_default_kf=False, allow
         # reading: with independent timing per member there is no single (delay, cycle) to build the
         # inexact-regime envelope from (one-ulp number parsing is covered by the single sentences)
         ss = [gen_sentence(rnd, True, allow_default_kf) for _ in range(n)]
+        # members are separate timelines even when they are configured alike: now and then a member repeats the
+        # options of its predecessor (in another spelling / order where possible) with keyframes of its own
+        if rnd.random() < 0.3:
+            j = rnd.randrange(1, n)
+            ss[j] = respell_options(rnd, ss[j - 1], gen_sentence(rnd, True, allow_default_kf))
         # an empty member would end the bracketed list early; make sure every member has a token
         for s in ss:
             if not s["text"].strip():
@@ -539,7 +581,11 @@ def c16(tier, seed, rest):
             from_state = f".from_state({st0})"
             feats.append("default-inline" + ("-partial" if len(fs) < 4 else "-full"))
         else:
-            expr = rnd.choice(["V { a: 1.5, b: -2.0, c: 77, d: 9 }", "make_v(3)", "V { c: 200, ..V::default() }", "make_v(-4)"])
+            # "an expression is used as is": calls, full struct literals, struct literals with a functional-update
+            # tail (from Default and from a non-default base), parenthesised and method-call forms
+            expr = rnd.choice(["V { a: 1.5, b: -2.0, c: 77, d: 9 }", "make_v(3)", "V { c: 200, ..V::default() }", "make_v(-4)",
+                               "V { c: 200, ..make_v(3) }", "V { a: 4.5, d: -7, ..make_v(-2) }", "(V { b: 8.0, ..make_v(2) })",
+                               "make_v(6).clone()", "V { ..make_v(5) }", "V::default()"])
             dflt_m, dv, from_state = f"default({st0}, {expr}),", expr, f".from_state({st0})"
             feats.append("default-expr")
         # arms
